@@ -70,6 +70,9 @@ func (c Config) String() string {
 	if c.InitS > 1 || c.InitT > 1 {
 		s += fmt.Sprintf("/S%dT%d", c.InitS, c.InitT)
 	}
+	if c.HeartBtInt != 0 && c.HeartBtInt != 30 {
+		s += fmt.Sprintf("/hb=%d", c.HeartBtInt)
+	}
 	if c.DataDictionary != "" || c.AppDD != "" {
 		s += "/dd"
 	}
